@@ -1,6 +1,8 @@
 import Gql.Proofs.Sys
 import Gql.Proofs.Complete
 import Gql.Proofs.AnnounceRun
+import Gql.Proofs.Fuel
+import Gql.Proofs.RootNodes
 import Gql.Proofs.StreamQueue
 import Gql.Async.EnvOk
 /-!
@@ -213,6 +215,54 @@ theorem ids_no_hypothesis (σ : Static) (π : PubStatic) (fuel : Nat) (work : Op
     (h : List Tick) :
     NoReuse [] (payloads σ π fuel work h) ∧ CompletedOnce (payloads σ π fuel work h) :=
   ⟨ids_never_reused σ π fuel work h, completed_at_most_once σ π fuel work h⟩
+
+/-- **P5 (a nested fragment is never announced while an announced enclosing fragment is still
+pending), as a state invariant.**  At the end of every well-formed history (hence at every
+quiescent point), no proper ancestor (along `parent`) of a root group — an announced, still
+pending fragment — has a node in the graph: the enclosing fragments are all finished or
+pruned. -/
+theorem root_ancestors_gone (σ : Static) (π : PubStatic) (fuel : Nat) (work : Option Work)
+    (h : List Tick) (hok : envOk σ fuel work h = true) :
+    ∀ r ∈ (Sys.run σ π fuel (Sys.start σ π fuel work).1 h).wq.rootGroups, ∀ a, Anc σ a r →
+      ¬ hasNode (Sys.run σ π fuel (Sys.start σ π fuel work).1 h).wq a := by
+  rw [(payloads_eq σ π fuel work h).2]
+  exact (p5_final σ fuel work h hok).1
+
+/-- **P5: the pending fragments form an antichain of the nesting order** — no root group is a
+proper ancestor of another root group (every root has its node, no root's ancestor has one). -/
+theorem roots_antichain (σ : Static) (π : PubStatic) (fuel : Nat) (work : Option Work)
+    (h : List Tick) (hok : envOk σ fuel work h = true) :
+    ∀ r ∈ (Sys.run σ π fuel (Sys.start σ π fuel work).1 h).wq.rootGroups,
+    ∀ a ∈ (Sys.run σ π fuel (Sys.start σ π fuel work).1 h).wq.rootGroups, ¬ Anc σ a r := by
+  rw [(payloads_eq σ π fuel work h).2]
+  obtain ⟨ha, hn⟩ := p5_final σ fuel work h hok
+  intro r hr a har hanc
+  exact ha r hr a hanc (hn a har)
+
+/-! ## Fuel bounds
+
+The model's recursions through the graph are by fuel.  The fuel the model passes is never
+exhausted: any larger amount gives the same result.  (`drain`'s fuel — how many graph events
+one batch can handle — depends on the environment and stays a parameter of every theorem.) -/
+
+/-- `_prune_empty_groups`: `|group nodes| + 1` units are enough. -/
+theorem prune_fuel_adequate (q : WQ) (gs : List Nat) (k : Nat) :
+    pruneEmpty q gs = prune (q.groupNodes.length + 1 + k) gs (q, []) :=
+  pruneEmpty_fuel q gs k
+
+/-- `_remove_group` (called on a group that has a node, as `_finish_group_failure` does):
+`|group nodes| + 1` units are enough. -/
+theorem removeGroup_fuel_adequate (σ : Static) (q : WQ) (g : Nat) (n : GroupNode)
+    (hn : alookup q.groupNodes g = some n) (k : Nat) :
+    removeGroup σ (q.groupNodes.length + 1) q g n = removeGroup σ (q.groupNodes.length + 1 + k) q g n :=
+  removeGroup_fuel_ok σ q g n n hn k
+
+/-- `_add_group` (called on a group of the list, as `_add_groups` does): `len(groups) + 1` units
+are enough, whatever has been visited. -/
+theorem addGroup_fuel_adequate (σ : Static) (gs : List Nat) (hpt : Bool) (g : Nat)
+    (acc : WQ × List Nat × List Nat) (hg : g ∈ gs) (k : Nat) :
+    addGroup σ gs hpt (gs.length + 1) g acc = addGroup σ gs hpt (gs.length + 1 + k) g acc :=
+  addGroups_fuel_ok σ gs hpt g acc hg k
 
 /-! ## P3b and the known finding `workqueue-prunes-promoted-group-with-undelivered-shared-task` -/
 
